@@ -1,6 +1,7 @@
 """Per-property checks. Each check_<ID>(replay) returns the process exit code."""
 import json
 import os
+import time
 
 import vlib
 from vlib import Check, WORK, harness, tlc_trace, tlc_mc, parallel, read_events
@@ -425,7 +426,7 @@ def check_C03(replay=None):
                        "arbitrary word images <= 5 words at boundary origins under a step budget) run by the real RunEnvironment; Trace_Debug.tla (Machine spec) must explain the load state, "
                        "every executed instruction (fetch address inside [origin, 0xFE00), word, full state diff, output, input) and the way the run stopped. distinct = sessions",
                        DBG_ASSUME, jobs, replay, mc=lambda th: [("MC_Machine", "MC_Machine_deep.cfg" if th else "MC_Machine.cfg")],
-                       extra_fn=lambda chk, th: _env_events(chk, {"tty", "fifo"}))
+                       extra_fn=lambda chk, th: _env_events(chk, {"tty", "fifo", "objmin"}))
 
 
 def _mc_dbg(kind):
@@ -502,6 +503,14 @@ def _c09_cli_pairs(chk, thorough):
     for script in ["c;q", "step;c;q", "continue", "step into 3;step out;c;q", "print r0" + " w" * 300 + ";c;q", "r" + " 1" * 256 + ";q"]:
         b = vlib.run_lace(["debug", "--minimal", lp, "--command", script], timeout=120)
         events.append({"ev": "dbgpair", "tag": "longloop", "run": [a[0], norm(a[1])], "dbg": [b[0], norm(b[1])], "script": script[:80], "src": long_src})
+    esc_src = "ld r0 e\nout\nld r0 b\nout\nld r0 one\nout\nld r0 m\nout\nld r0 x\nout\nhalt\ne .fill x1b\nb .fill x5b\none .fill x31\nm .fill x6d\nx .fill x58\n"
+    ep = os.path.join(d, "escout.asm")
+    open(ep, "w").write(esc_src)
+    a = vlib.run_lace(["run", "--minimal", ep])
+    norm = lambda o: _norm_out(o, [ep]).replace("\n", "")
+    for script in ["step into 2;echo m;registers;step;quit", "step into 3;echo m;c;q", "step into 2;bogus m;p r0;c;q", "step into 2;assembly;c;q", "c;q"]:
+        b = vlib.run_lace(["debug", "--minimal", ep, "--command", script])
+        events.append({"ev": "dbgpair", "tag": "escout", "run": [a[0], norm(a[1])], "dbg": [b[0], norm(b[1])], "script": script, "src": esc_src})
     _cli_validate(chk, events, "dbgpair")
     _env_events(chk, {"xport"}, n=9)
     _shutil.rmtree(d, ignore_errors=True)
@@ -589,6 +598,20 @@ def _c16_cli_ends(chk, thorough):
                 elif fh is not None:
                     fh.close()
             events.append({"ev": "ends", "tag": "%s:%s" % (tag, " ".join(script[1:]) or "stdin-only"), "ended": ended})
+    # the same on a real terminal: lines holding one to four commands are typed, then `quit`: the process must end
+    import ptydrive
+    for k, lines in enumerate((["r"], ["r;r"], ["r;r;r"], ["step;r;step;r"], [";;"], ["r;r;r", "r;r;r;r"])):
+        env = dict(os.environ, NO_COLOR="1", XDG_CACHE_HOME=os.path.join(d, "cache%d" % k), HOME=d, TERM="xterm")
+        os.makedirs(env["XDG_CACHE_HOME"], exist_ok=True)
+        p = ptydrive.Pty([vlib.LACE_BIN, "debug", "--minimal", src], env)
+        seen = p.read_until(ptydrive.at_prompt, limit=30.0)
+        for ln in lines + ["quit"]:
+            p.send(ln.encode() + b"\r")
+            p.read_until(ptydrive.at_prompt, quiet=0.3, limit=3.0)
+        st = p.finish(grace=20.0)
+        if not seen and st is None:
+            raise vlib.ToolError("the debugger's prompt never appeared on the pseudo terminal")
+        events.append({"ev": "ends", "tag": "tty:%s" % "|".join(lines), "ended": st is not None})
     _cli_validate(chk, events, "ends")
     _shutil.rmtree(d, ignore_errors=True)
 
@@ -679,8 +702,55 @@ def _env_events(chk, kinds, n=6):
             body = text.split("Running", 1)[-1]
             got = [int(x) % 65536 for x in _re.findall(r"(?m)^(-?\d+)\r?$", body)]
             events.append({"ev": "ttyin", "tag": "tty%d" % k, "typed": [b for t in typed for b in t.encode()], "got": got, "code": -1 if st is None else st, "src": src})
+    if "tty" in kinds:
+        # input redirected from a pipe while OUTPUT goes to a terminal: the piped bytes are what GETC reads
+        import pty as _pty
+        for k, data in enumerate([b"ab", b"x\xc3\xa9y"]):
+            src = "ld r1 n\nloop getc\nputn\nld r0 nl\nout\nadd r1 r1 #-1\nbrp loop\nhalt\nn .fill #%d\nnl .fill x0a\n" % len(data)
+            path = os.path.join(d, "pipetty%d.asm" % k)
+            open(path, "w").write(src)
+            m, sl = _pty.openpty()
+            p = _sp.Popen([vlib.LACE_BIN, "run", "--minimal", path], stdin=_sp.PIPE, stdout=sl, stderr=sl, env=dict(os.environ, NO_COLOR="1", TERM="xterm"))
+            os.close(sl)
+            try:
+                p.stdin.write(data)
+                p.stdin.close()
+            except OSError:
+                pass
+            buf, t0 = b"", time.time()
+            while time.time() - t0 < 60:
+                import select as _sel
+                r, _, _ = _sel.select([m], [], [], 0.2)
+                if r:
+                    try:
+                        got = os.read(m, 65536)
+                    except OSError:
+                        break
+                    if not got:
+                        break
+                    buf += got
+                elif p.poll() is not None:
+                    break
+            try:
+                p.wait(timeout=30)
+            except _sp.TimeoutExpired:
+                p.kill()
+                p.wait()
+            os.close(m)
+            body = buf.decode("utf-8", "replace").split("Running", 1)[-1]
+            got = [int(x) % 65536 for x in _re.findall(r"(?m)^(-?\d+)\r?$", body)]
+            events.append({"ev": "ttyin", "tag": "pipe-to-tty%d" % k, "typed": list(data), "got": got, "code": p.returncode if p.returncode is not None else -1, "src": src})
+    if "objmin" in kinds:
+        # an object file run with --minimal prints what its source run with --minimal prints (REG and an ESC character included)
+        src = os.path.join(d, "objmin.asm")
+        open(src, "w").write("and r0 r0 #0\nadd r0 r0 #5\nreg\nld r0 esc\nout\nlea r0 msg\nputs\nhalt\nesc .fill x1b\nmsg .stringz \"[1mX\"\n")
+        obj = os.path.join(d, "objmin.lc3")
+        vlib.run_lace(["compile", src, obj])
+        a = vlib.run_lace(["run", "--minimal", src])
+        b = vlib.run_lace(["run", "--minimal", obj])
+        events.append({"ev": "fifoload", "tag": "objmin", "file": [a[0], _norm_out(a[1], [src])], "fifo": [b[0], _norm_out(b[1], [obj])]})
     if "fifo" in kinds:
-        for k, (o, nwords) in enumerate([(0x3000, 1), (0x3000, 5000), (0x0000, 3), (0xFDFF, 1)]):
+        for k, (o, nwords) in enumerate([(0x3000, 1), (0x3000, 5000), (0x0000, 3), (0xFDFF, 1), (0x3000, 7)]):
             data = bytes([o >> 8, o & 0xFF]) + bytes([0xF0, 0x25]) * nwords
             reg = os.path.join(d, "reg%d.lc3" % k)
             open(reg, "wb").write(data)
@@ -688,10 +758,18 @@ def _env_events(chk, kinds, n=6):
             ff = os.path.join(d, "fifo%d.lc3" % k)
             os.mkfifo(ff)
 
-            def feed(path=ff, data=data):
+            def feed(path=ff, data=data, odd=(k == 4)):
                 try:
-                    with open(path, "wb") as f:
-                        f.write(data)
+                    with open(path, "wb", buffering=0) as f:
+                        if odd:
+                            # the bytes arrive in pieces of odd length, with pauses
+                            f.write(data[:3])
+                            time.sleep(0.3)
+                            f.write(data[3:8])
+                            time.sleep(0.3)
+                            f.write(data[8:])
+                        else:
+                            f.write(data)
                 except OSError:
                     pass
             t = threading.Thread(target=feed, daemon=True)
@@ -977,6 +1055,16 @@ def check_C06(replay=None):
         return {"ev": "loadfile", "tag": "len%d" % nbytes, "len": nbytes, "o": o if o is not None else 0, "code": code,
                 "refused": any(m in e for m in LOADER_MSGS)}
     events += parallel(loadf, specs, 8)
+    for flag in ([], ["-f", "stack"]):
+        for o, nwords in ((0x0000, 0xFDFF), (0x0000, 0xFE00), (0x0001, 0xFDFE), (0x3000, 0xCDFF), (0x3000, 0xCE00)):
+            name = os.path.join(ld, "cover_%04x_%d_%d.lc3" % (o, nwords, len(flag)))
+            # [origin] BR-never words ... HALT as first word so that the run stops at once
+            open(name, "wb").write(bytes([o >> 8, o & 0xFF]) + bytes([0xF0, 0x25]) + bytes([0x00, 0x00]) * (nwords - 1))
+            code, out, err = vlib.run_lace(["run", "--minimal"] + flag + [name], timeout=60)
+            os.remove(name)
+            e = err.decode("utf-8", "replace")
+            events.append({"ev": "loadfile", "tag": "cover:%04x:%d:%s" % (o, nwords, "stack" if flag else "plain"), "len": 2 * (nwords + 1), "o": o, "code": code,
+                           "refused": any(m in e for m in LOADER_MSGS)})
     # (3b) the same bytes through a named pipe
     _env_events(chk, {"fifo"})
     # (3c) the implicit HALT behind the image is there whatever the image's own last word is: images that jump to the word after their end
@@ -1048,7 +1136,8 @@ def _watch_smoke(chk):
 
     put("halt\n")
     # every text defines labels the NEXT text defines again: state left behind by a re-check (failed or not) would show
-    phases = [("far", "m halt\nld r0 far\n.blkw #300\nfar halt\n", False, []),
+    phases = [("ok0", "m halt\nfar add r0 r0 #1\n", True, []),
+              ("far", "m halt\nld r0 far\n.blkw #300\nfar halt\n", False, []),
               ("ok", "far halt\nm add r0 r0 #1\n", True, []),
               ("undefined", "far halt\nm ld r0 nowhere\n", False, []),
               ("ok2", "far lea r0 m\nputs\nhalt\nm .stringz \"x\"\n", True, []),
@@ -1275,6 +1364,8 @@ def check_C08(replay=None):
     # the destination is a symbolic link to a regular file (writable / not writable); names mixing 1-, 2-, 3- and 4-byte characters;
     # a stdout pipe whose reader has left once the first message was printed
     jobs += [(c, dk) for i, c in enumerate(man) for dk in ("symlink", "symlink-fsize", "mixedutf8", "absent-pipegone") if thorough or i % 4 == 0]
+    # the destination has a second name (hard link): same two outcomes; the other name keeps seeing the old bytes or sees the new ones, never a mixture
+    jobs += [(c, dk) for i, c in enumerate(man) for dk in ("hardlink", "hardlink-fsize") if thorough or i % 4 == 1]
 
     def atomic(job):
         c, dk = job
@@ -1308,10 +1399,17 @@ def check_C08(replay=None):
             if os.path.lexists(dest):
                 os.remove(dest)
             os.symlink(real, dest)
+        elif dk in ("hardlink", "hardlink-fsize"):
+            dest = base + ".lc3"
+            open(dest, "wb").write(old)
+            other = base + ".real.bin"
+            if os.path.lexists(other):
+                os.remove(other)
+            os.link(dest, other)
         elif dk == "mixedutf8":
             # 2-, 3-, 4- and 1-byte characters in turn, then j ASCII characters: over the cases every byte alignment of the name's tail occurs
             j = (int(_re.findall(r"_(\d+)\.asm$", c["path"])[0]) // 4) % 10
-            dest = base + "\u00e9\u2713\U0001F600a" * 6 + "x" * j + ".lc3"
+            dest = base + "\u00e9\u2713\U0001F600a" * 14 + "x" * j + ".lc3"
         elif dk in ("absent-outfull", "absent-fsize", "absent-msgfail", "absent-pipegone"):
             dest = base + ".lc3"
         elif dk in ("file-outfull", "file-fsize", "file-msgfail"):
@@ -1323,7 +1421,7 @@ def check_C08(replay=None):
         limit = None          # RLIMIT_FSIZE for the command (None = unlimited)
         out_path = None
         if dk.endswith("-fsize"):
-            limit = 0
+            limit = 8 if dk == "hardlink-fsize" else 0       # (8: the write fails part-way instead of at its first byte)
         if dk == "absent-pipegone":
             return _c08_pipegone(c, dest, base)
         if dk.endswith("-msgfail"):
@@ -1442,6 +1540,16 @@ def check_C18(replay=None):
     for v in ["stack", "stack,", ",stack", ",,stack,,", "stack,stack", "foo", "", ",", "Stack", "stack,foo", "stac", "stack ", "stack,,stack"]:
         code, out, err = vlib.run_lace(["check", "-f", v, src])
         events.append({"ev": "featarg", "tag": v, "value": vlib.chars(v), "code": code})
+    # `eval <stack mnemonic>` without the flag is refused AND the refusal names the feature; with the flag it executes
+    esrc = os.path.join(d, "evalgate.asm")
+    open(esrc, "w").write("halt\nsub halt\n")
+    for text in ("eval push r0", "eval POP r1", "eval call sub", "eval Rets", "e push r3"):
+        for f in (False, True):
+            code, out, err = vlib.run_lace(["debug", "--minimal"] + _flag(f) + [esrc, "--command", text + ";registers;exit"])
+            e = err.decode("utf-8", "replace")
+            r7 = _re.findall(r"(?m)^R7 x([0-9a-f]{4})", e)
+            events.append({"ev": "gate_eval", "tag": text + (" +stack" if f else ""), "stack": f, "code": code, "names": "stack" in e.split("R0 x")[0],
+                           "r7": int(r7[-1], 16) if r7 else -1, "moves": text.split()[1].lower() in ("push", "pop", "call", "rets")})
     # opcode 0xD without the flag, reached while stdout is a pipe whose reader has left and output is still pending: still exit 1, naming the feature
     psrc = os.path.join(d, "pipe.asm")
     open(psrc, "w").write("and r0 r0 #0\nadd r0 r0 #7\nputn\ngetc\n.fill xD440\nhalt\n")
@@ -1584,13 +1692,22 @@ def _c20_pty_cases(chk, out, n):
             x //= 4
         big.append(sdig)
     cases.append((big, [{"k": "up", "c": ""}, {"k": "up", "c": ""}, {"k": "char", "c": "b"}, {"k": "enter", "c": ""}], "single"))
+    # one typed line holding three and more commands (all of them harmless), then another line: both must be taken, in order
+    for line in ("a;a;a", "a;;a", "a ; a ; a ; a", ";;"):
+        cases.append(([], [{"k": "char", "c": c} for c in line] + [{"k": "enter", "c": ""}] + [{"k": "char", "c": "b"}, {"k": "enter", "c": ""}], "single"))
+    # a line longer than the window is wide (the window has a size here: 40 columns), edited in the middle
+    long_line = "a b " * 14
+    cases.append(([], [{"k": "char", "c": c} for c in long_line] + [{"k": "left", "c": ""}] * 5 + [{"k": "char", "c": "Z"}, {"k": "ctrlleft", "c": ""}, {"k": "char", "c": "9"},
+                       {"k": "enter", "c": ""}], "single40"))
+    cases.append(([], [{"k": "char", "c": c} for c in long_line] + [{"k": "backspace", "c": ""}] * 3 + [{"k": "char", "c": "Z"}, {"k": "enter", "c": ""}], "burst40"))
 
     def run(job):
         i, (hist, keys, mode) = job
-        r = ptydrive.editor_session(vlib.LACE_BIN, asm, os.path.join(d, "cache%d" % i), hist, keys, mode)
+        cols = 40 if mode.endswith("40") else 0
+        r = ptydrive.editor_session(vlib.LACE_BIN, asm, os.path.join(d, "cache%d" % i), hist, keys, mode.replace("40", ""), cols=cols)
         if not r["prompt_seen"]:
             # no prompt at all: retry once before believing it (a loaded machine)
-            r = ptydrive.editor_session(vlib.LACE_BIN, asm, os.path.join(d, "cache%d" % i), hist, keys, mode)
+            r = ptydrive.editor_session(vlib.LACE_BIN, asm, os.path.join(d, "cache%d" % i), hist, keys, mode.replace("40", ""), cols=cols)
         if not r["prompt_seen"] and not r["panicked"]:
             raise vlib.ToolError("the debugger's prompt never appeared on the pseudo terminal (twice): %r" % r["transcript"][-200:])
         evs = [{"ev": "init", "hist": [chars(h) for h in hist], "mode": mode}]
